@@ -673,7 +673,7 @@ M.contract(P_TBP + ':transformed_by_command', inline=True,
 
 class TransformerI(Interface):
     attrs = {'is_identity_transformer': Bool}
-    methods = {'transform': Method(returns=STRING_SOURCE)}
+    methods = {'transform': Method(returns=STRING_SOURCE, event='transformer.transform')}
 
 
 TRANSFORMER_PROGRAM = PROGRAM
@@ -898,7 +898,7 @@ from exactly_lib.impls.types.string_source.factory import RootStringSourceFactor
 P_PGX = 'exactly_lib.impls.actors.program.execution'
 
 M.contract('exactly_lib.impls.types.string_source.factory:RootStringSourceFactory.of_file__poorly_described',
-           trusted=True, params=dict(self=Any_, file=Any_), returns=STRING_SOURCE)
+           trusted=True, params=dict(self=Any_, file=Any_), returns=STRING_SOURCE, event='string-source.of-file')
 M.trust('string_source.factory.RootStringSourceFactory.of_file__poorly_described(file) builds a string source for an '
         'existing file; it starts no process')
 
@@ -928,6 +928,20 @@ M.contract(P_PGX + ':Executor._app_env', inline=True,
            ensures={'the given settings object, unchanged': lambda self, settings, result:
            carries(result, self._os_services, settings)}, raises_only=())
 
+def _written_is_transformed_stdout(trace, transformer):
+    """one source is made of the file that the one process was given as stdout; the transformer is applied once, to
+    that source; the contents written are those of the transformer's result"""
+    of_file = [e for e in trace if e[0] == 'string-source.of-file']
+    made = [e[2] for e in trace if e[0] == 'string-source.of-file:returned']
+    applied = [e for e in trace if e[0] == 'transformer.transform']
+    transformed = [e[2] for e in trace if e[0] == 'transformer.transform:returned']
+    written = [e[1] for e in trace if e[0] == 'contents.write_to']
+    return len(of_file) == 1 and len(made) == 1 and len(applied) == 1 and len(transformed) == 1 and len(written) == 1 \
+        and of_file[0][1]['file'] is executions(trace)[0][3].output.out.g_path \
+        and applied[0][1] is transformer and applied[0][2][0] is made[0] \
+        and written[0] is transformed[0].contents()
+
+
 M.contract(P_PGX + ':_ExecutorWithoutTransformation.execute', inline=True, props=BOTH,
            params=dict(self=Inst(pgm_execution._ExecutorWithoutTransformation, _app_env=APP_ENV, _command=A_COMMAND,
                                  _atc_files=STD_FILES)), returns=Int,
@@ -954,6 +968,11 @@ M.contract(P_PGX + ':_ExecutorWithTransformation.execute', inline=True, props=BO
                'C10: the transformed stdout of the process is what is written to the stdout of the ATC':
                    lambda self, trace:
                    [e[2][0] for e in trace if e[0] == 'contents.write_to'] == [self._atc_files.output.out],
+               # (seeded change C10-s9: the transformation was applied only when the exit code was 0)
+               'C10: whatever the exit code, what is written is the text of the file the process had as stdout, '
+               'transformed by the transformer of the program':
+                   lambda self, trace:
+                   _written_is_transformed_stdout(trace, self._resolved_transformer_for_program),
                'exit code is the one the executor returned': lambda result, trace: result == execution_results(trace)[0],
            },
            raises={HardErrorException: {'ensures': lambda self, trace: uses_app_env(trace, self._app_env)}},
